@@ -194,6 +194,14 @@ Definition recv (l : h11lib) (e : h11ev) : h11lib :=
       end
   end.
 
+(* the parser contract, completed: h11 turns a Request that its own state machine refuses (the server side is not
+   IDLE) into a RemoteProtocolError, so a Request is only ever delivered when the state machine accepts it *)
+Definition request_accepted (l : h11lib) (method : bytes) (hs : list header) (version : bytes) : bool :=
+  let up := negb (match comma_header hs (B "upgrade") with [] => true | _ => false end) in
+  match request_cs (l_cs l) up (beqb method (B "CONNECT")) (msg_keep_alive hs version) with Some _ => true | None => false end.
+Definition event_allowed (l : h11lib) (e : h11ev) : bool :=
+  recv_possible l e && match e with HRequest m _ hs v => request_accepted l m hs v | _ => true end.
+
 (* ---- sending ---- *)
 Inductive h11send :=
 | SInfo (status : Z) (headers : list header)
